@@ -28,6 +28,9 @@ MutexOK(backend, log) ==
             /\ \/ log[k][2] = "release"
                \/ (backend = "sqlite" /\ log[k][2] = "commit")   \* SQLite ends the write transaction at COMMIT
 
+SeedBase(cs) == LET roots == {v.parent : v \in cs.versions} \ Vids(cs) IN
+                IF roots = {} THEN Nil ELSE CHOOSE r \in roots : TRUE
+
 Judge(e) ==
   LET seedcs == CsOf(e.seed)
       final  == CsOf(e.final)
@@ -43,6 +46,14 @@ Judge(e) ==
         <<"C03", (~e.faulted) => ( MutexOK(e.backend, e.log) /\ noerr /\ lin /\ ChainOK(final) /\ e.other = e.other0 ) >>,
         <<"C11", (~e.faulted /\ snapops) => (noerr /\ lin) >>,
         <<"C08", (~e.faulted /\ \E r \in rids : reqs[r].op = "GetChildVersion") => (noerr /\ lin) >>,
+        \* overlapping AddSnapshots: the outcome is that of one order, and the snapshot never moves backwards
+        <<"C10", (~e.faulted /\ \E r \in rids : reqs[r].op = "AddSnapshot") =>
+                   ( noerr /\ lin
+                     /\ LET acc0 == WalkFrom(final.versions, SeedBase(final), Cardinality(final.versions) + 1)
+                            rank(cs) == IF ~cs.snap.has THEN -1
+                                        ELSE IF \E i \in DOMAIN acc0 : acc0[i].vid = cs.snap.vid
+                                               THEN CHOOSE i \in DOMAIN acc0 : acc0[i].vid = cs.snap.vid ELSE 0
+                        IN rank(final) >= rank(seedcs) ) >>,
         <<"C01", (~e.faulted) => ChainOK(final) >>,
         <<"C02", (~e.faulted) =>
                    \A r, s \in accepted : (r # s /\ reqs[r].arg = reqs[s].arg) => seedcs.latest = Nil /\ FALSE >>,
